@@ -1,12 +1,15 @@
 # C05 -- graph stays structurally consistent under any operations and threads
 # (graph_engine/src/lib.rs over tensor_store/src/metadata_slab.rs)
 CFG = dict(
-    dirs=["Common", "C05"], gen=False,
+    dirs=["Common", "C05"], gen=True,
     run_targets=["C05/Run.vo"], proof_targets=["C05/Props.vo"], props="C05/Props.v",
-    gen_obligations=[],
+    gen_obligations=[
+        "Inst.gen_remove_spec / gen_remove_any_order: the element search regenerated from remove_edge_from_list removes the id from a list in ANY order (not only ascending lists)",
+        "Inst.gen_add_spec: add_edge_to_list appends the id unless it is present",
+    ],
     crate="nvh_c05",
     header=H + "From NV.C05 Require Import Model Run.\nOpen Scope N_scope.",
-    kinds={"seq": ("seq_case", "check_seq"), "conc": ("conc_case", "check_conc")},
+    kinds={"seq": ("seq_case", "check_seq"), "conc": ("conc_case", "check_conc"), "mixed": ("mixed_case", "check_mixed")},
     known_classes={0: "concurrent-delete-node"},
     shard=10,
     rule="seeded sequences of create_node/create_edge (directed, undirected, self-loops, parallel)/delete_edge/delete_node/update_node/update_edge on 1-8 nodes incl. missing ids, observed through the public reads after every operation; 2-8 threads behind a barrier on a shared engine (hub creations, creations + deletions/updates of overlapping setup edges, mixes with node deletions), observed at quiescence; delete_node above the rayon threshold",
